@@ -76,6 +76,10 @@ Demand(fault, fr, r, R, D, ret, touched) ==
             IF ret.kind = "clienterr" THEN "ok"
             ELSE IF ret.kind = "ok" THEN "success-although-the-request-was-never-taken-by-the-peer"
             ELSE "write-timeout-not-reported-as-client-error"
+      [] fault \in {"precancel", "cancelonwrite"} ->      \* cancelled before anything was read, the whole reply is available
+            IF ret.kind = "ctxerr" THEN "ok"
+            ELSE IF ret.kind = "ok" THEN "success-reported-for-a-call-cancelled-before-anything-was-read"
+            ELSE "cancellation-not-reported-as-context-error"
       [] fault = "cancel" ->
             IF ret.kind = "ctxerr" THEN "ok" ELSE "cancellation-not-reported-as-context-error"
       [] fault \in {"notconnected", "nilreq", "connectfailed", "connectfailednil"} ->
